@@ -577,7 +577,7 @@ class CallbackPlugin(Plugin):
     def on_callback(self, mon, agent, kind, log):
         mon.keepalive.append(log)
         self.calls[(agent.agent_id, kind, id(log))] += 1
-        if id(log) not in mon.seen_logs and mon.sim.logger is not None:
+        if id(log) not in mon.seen_logs and mon.retain:
             mon.viol("C11", "callback_with_unknown_record", {"agent": agent.name, "kind": kind})
         # party check
         if kind == "submitted" and log.agent_id != agent.agent_id:
@@ -666,7 +666,9 @@ class HooksPlugin(Plugin):
             t = sim.id2market[mid].get_time() if before else obj.cancel_time
             if before:
                 mo = mon.obj2mo.get(id(obj.order))
-                if obj.placed_at is not None:
+                # a cancel object handed in a second time carries the stamp of its first submission
+                again = id(obj) in mon.cancel_objs
+                if obj.placed_at is not None and not again:
                     mon.viol("C13", "before_cancel_hook_ran_late", {"probe": name})
                 if mo is not None and mo.status == "live" and obj.order.is_canceled:
                     mon.viol("C13", "before_cancel_hook_ran_late", {"probe": name, "order": mo.brief()})
@@ -696,6 +698,20 @@ class HooksPlugin(Plugin):
         if code == "SesE":
             s = log.session
             self._occ("session", False, s.session_start_time + s.iteration_steps - 1, -1)
+
+    def on_tap(self, mon, idx, phase, kind, obj):
+        # a run without a logger has no begin/end records: session and step occurrences then come from the
+        # first tap (an always-hook of the harness itself)
+        if mon.retain or idx != 0 or phase != "n":
+            return
+        if kind == "session_before":
+            self._occ("session", True, obj.session_start_time, -1)
+        elif kind == "session_after":
+            self._occ("session", False, obj.session_start_time + obj.iteration_steps - 1, -1)
+        elif kind == "market_before":
+            self._occ("market", True, obj.get_time(), obj.market_id)
+        elif kind == "market_after":
+            self._occ("market", False, obj.get_time(), obj.market_id)
 
     def on_step_record(self, mon, log, code):
         m = log.market
@@ -777,6 +793,7 @@ class IndexPlugin(Plugin):
     def attach(self, mon):
         self.idx = [m for m in mon.markets if isinstance(m, IndexMarket)]
         self.n = 0
+        self.w_at_advance: Dict[int, List[int]] = {}
 
     def _weights(self, im):
         comps = im.get_components()
@@ -809,10 +826,16 @@ class IndexPlugin(Plugin):
             if len(set(w)) > 1:
                 mon.probe("unequal_weights_checked")
 
+    def post_tick(self, mon, market, mm, t):
+        if isinstance(market, IndexMarket):
+            self.w_at_advance[id(market)] = [c.outstanding_shares for c in market.get_components()]
+
     def check_fundamental(self, mon, where):
         for im in self.idx:
             now = im.get_time()
             comps, w = self._weights(im)
+            # the recorded value was computed when the clock advanced: with the shares of that moment
+            w = self.w_at_advance.get(id(im), w)
             W = sum(w)
             try:
                 vals = [c.get_fundamental_price(now) for c in comps]
